@@ -5,6 +5,7 @@ ROOT = os.path.dirname(os.path.dirname(os.path.abspath(__file__)))
 CRATE = os.path.join(ROOT, "replay")
 TARGET = os.path.join(ROOT, ".cache", "target")
 BIN = os.path.join(TARGET, "release", "beff-twin")
+FRONT = os.path.join(TARGET, "release", "beff-front")   # bounded stand-in for the frontend (C04): args start with "front"
 REPO = os.environ.get("VERIF_REPO", "/repo")
 
 FAMILY = {"list_shape": "listfold", "bdd_ops": "bdd", "dnf": "dnf", "proper_subtype": "proper", "semtype_ops": "semtype", "to_schema": "schema"}
@@ -32,8 +33,9 @@ def build(timeout=1500):
     return None
 
 
-def run(args, timeout=900):
-    p = subprocess.run([BIN] + args, capture_output=True, text=True, timeout=timeout)
+def run(args, timeout=1800):
+    cmd = [FRONT] + args[1:] if args and args[0] == "front" else [BIN] + args
+    p = subprocess.run(cmd, capture_output=True, text=True, timeout=timeout)
     rows = []
     for l in p.stdout.split("\n"):
         l = l.strip()
